@@ -42,10 +42,11 @@ def cap_cfgs():
     c.append(cap("ZEROOUT", 16, 48, **N))
     c.append(cap("DISCARD", 16, 48, **N))
     c.append(cap("WRITE", 16, 16, cnt=1, offmode=1, **N))
-    # the three queries below fail on the unchanged tree (genuine defects, see final report)
-    c.append(cap("WRITE", 16, 16, cnt=1, BEYOND_END=None, **N))
-    c.append(cap("WRITE_BYTE", 16, 20, offmode=1, **N))
-    c.append(cap("WRITE", 16, 16, cnt=1, offmode=2, **N))
+    c.append(cap("WRITE", 16, 16, cnt=1, BEYOND_END=None, **N))       # fixed by 5d7d5931
+    c.append(cap("WRITE_BYTE", 16, 20, offmode=1, **N))               # fixed by b20ebc92
+    c.append(cap("WRITE", 16, 16, cnt=1, offmode=2, **N))             # unaligned offset, no carry
+    # KNOWN FINDING (fails on the current tree): unaligned offset, carry case only
+    c.append(cap("WRITE", 16, 16, cnt=1, offmode=2, OFF_CARRY=None, **N))
     # thorough
     c.append(cap("WRITE_BYTE", 16, 60, **N, **T))
     c.append(cap("WRITE", 16, 64, cnt=4, offmode=1, **N, **T))
@@ -58,16 +59,27 @@ def cap_cfgs():
     return c
 
 def reopen_cfgs():
+    H4 = {"E2FSPROGS_VERIF_UNDO_MIN_BLOCK_SIZE": 48}
+    FU = ["undo_write_tdb.0:3"]
+    def uw(nk, extra=()):
+        return ["try_reopen_undo_file.0:%d" % (nk + 2), "try_reopen_undo_file.1:%d" % (nk + 2)] + list(extra)
     c = []
-    def uw(nk):
-        return ["try_reopen_undo_file.0:%d" % (nk + 1), "try_reopen_undo_file.1:3", "undo_setup_tdb.0:4"]
-    for nk in (0, 2):
-        c.append({"NK": nk, "FSBS": 1024, "_unwindset": uw(nk)})
-    c.append({"NK": 3, "FSBS": 4096, "_unwindset": uw(3)})
+    for nk, fsbs in ((0, 16), (1, 16), (3, 16), (1, 48)):
+        c.append(dict(H4, NK=nk, FSBS=fsbs, _unwindset=uw(nk)))
+    c.append(dict(H4, NK=1, FSBS=16, OFFQ=1, _unwindset=uw(1)))
+    c.append(dict(H4, NK=1, FSBS=16, ROUNDTRIP=None, OFFQ=1, _unwindset=uw(1)))
+    c.append(dict(H4, NK=1, FSBS=16, FOLLOWUP=None, _unwindset=uw(1, FU)))
+    c.append(dict(H4, NK=1, FSBS=16, FOLLOWUP_SAVED=None, _unwindset=uw(1, FU)))
+    c.append(dict(H4, NK=1, FSBS=16, OFFQ=1, FOLLOWUP_SAVED=None, _unwindset=uw(1, FU)))
     for dmg in (1, 2, 3, 4, 5, 6):
-        c.append({"NK": 1, "FSBS": 1024, "DAMAGE": dmg, "_unwindset": uw(1)})
-    # fails on the unchanged tree (genuine defect: block map rebuilt fs-relative, used absolute)
-    c.append({"NK": 2, "FSBS": 1024, "WITH_OFFSET": None, "_unwindset": uw(2)})
+        c.append(dict(H4, NK=1, FSBS=16, DAMAGE=dmg, _unwindset=uw(1)))
+    # candidates for genuine defects, each isolated in its own queries:
+    # (a) fs offset >= one undo block: map rebuilt fs-relative, tested absolute
+    c.append(dict(H4, NK=1, FSBS=16, OFFQ=2, FOLLOWUP_SAVED=None, _unwindset=uw(1, FU)))
+    c.append(dict(H4, NK=1, FSBS=16, OFFQ=2, FOLLOWUP=None, _unwindset=uw(1, FU)))
+    # (b) a file whose last key block is exactly full (num_keys % KEYS_PER_BLOCK == 0)
+    c.append(dict(H4, NK=2, FSBS=16, _unwindset=uw(2)))
+    c.append(dict(H4, NK=2, FSBS=16, FOLLOWUP=None, _unwindset=uw(2, FU)))
     return c
 
 HARNESSES = [
@@ -84,6 +96,12 @@ HARNESSES = [
          configs=[{"FLUSH": 0}, {"FLUSH": 1}], backends=["default", "kissat"],
          bound="undo block 48 bytes, all 48 key block bytes, 96 superblock bytes, all header-relevant private fields, offset, "
                "channel block size symbolic"),
+    dict(name="reopen", src="reopen.c",
+         funcs=["try_reopen_undo_file", "check_filesystem", "undo_setup_tdb"],
+         configs=reopen_cfgs(), backends=["default", "kissat"],
+         cbmc_flags=["--max-field-sensitivity-array-size", "1024"],
+         bound="undo block 48 bytes (hook H4), 0..3 keys of 1..2 undo blocks in up to two key blocks, fs block size 16/48, "
+               "fs offset 0 or any non-zero value < 2^40, one flipped bit at a symbolic position per damage class"),
 ]
 MANIFEST = {
     "text": "Bounded-exhaustive inductive step on the undo manager: from every undo state satisfying the stated invariant "
